@@ -38,7 +38,9 @@ Record config := Config {
   fx_ascii_digit : bool;    (* lex(): number branch tests an ASCII digit instead of str.isnumeric *)
   fx_int_guard : bool;      (* get_int_value/get_float_value: a failing int()/float() is a ParseError *)
   fx_label_validate : bool; (* parser: a block name hint is only set when Block.is_valid_name(name) *)
-  fx_label_redef : bool     (* parser: _parse_block records the definition span (redefinition -> ParseError) *)
+  fx_label_redef : bool;    (* parser: _parse_block records the definition span (redefinition -> ParseError) *)
+  fx_utf8_kind : bool       (* lexer: an escaped literal is STRING_LIT iff its payload decodes as UTF-8
+                               (false: iff the payload is ASCII, the pinned tree) *)
 }.
 
 Inductive ikind := ValueError | KeyError | IndexError | AssertionError | TypeError.
@@ -113,6 +115,76 @@ Fixpoint bytes_ascii (l : list Z) : option bool :=
            end
   end.
 
+(* StringLiteral.bytes_contents: the decoded bytes, None = ParseError (incomplete / invalid escape) *)
+Definition utf8_encode (c : Z) : list Z :=
+  (if c <? 128 then [c]
+   else if c <? 2048 then [192 + c / 64; 128 + c mod 64]
+   else if c <? 65536 then [224 + c / 4096; 128 + (c / 64) mod 64; 128 + c mod 64]
+   else [240 + c / 262144; 128 + (c / 4096) mod 64; 128 + (c / 64) mod 64; 128 + c mod 64])%Z.
+Fixpoint bytes_of (l : list Z) : option (list Z) :=
+  match l with
+  | [] => Some []
+  | c :: rest =>
+      if (c =? 92)%Z then
+        match rest with
+        | [] => None
+        | c1 :: rest1 =>
+            if (c1 =? 110)%Z then option_map (cons 10%Z) (bytes_of rest1)
+            else if (c1 =? 116)%Z then option_map (cons 9%Z) (bytes_of rest1)
+            else if (c1 =? 92)%Z then option_map (cons 92%Z) (bytes_of rest1)
+            else if (c1 =? 34)%Z then option_map (cons 34%Z) (bytes_of rest1)
+            else match rest1 with
+                 | c2 :: rest2 =>
+                     if is_hex c1 && is_hex c2
+                     then option_map (cons (hexval c1 * 16 + hexval c2)%Z) (bytes_of rest2)
+                     else None
+                 | [] => None
+                 end
+        end
+      else option_map (app (utf8_encode c)) (bytes_of rest)
+  end.
+(* bytes.decode() succeeds: CPython's strict UTF-8 (no overlong forms, no surrogates, at most U+10FFFF) *)
+Definition is_cont (b : Z) : bool := ((128 <=? b) && (b <=? 191))%Z.
+Fixpoint utf8_valid (l : list Z) : bool :=
+  match l with
+  | [] => true
+  | b :: r =>
+      if (b <? 128)%Z then utf8_valid r
+      else if ((194 <=? b) && (b <=? 223))%Z then
+        match r with c1 :: r1 => is_cont c1 && utf8_valid r1 | _ => false end
+      else if ((224 <=? b) && (b <=? 239))%Z then
+        match r with
+        | c1 :: c2 :: r2 =>
+            (if (b =? 224)%Z then ((160 <=? c1) && (c1 <=? 191))%Z
+             else if (b =? 237)%Z then ((128 <=? c1) && (c1 <=? 159))%Z
+             else is_cont c1) && is_cont c2 && utf8_valid r2
+        | _ => false
+        end
+      else if ((240 <=? b) && (b <=? 244))%Z then
+        match r with
+        | c1 :: c2 :: c3 :: r3 =>
+            (if (b =? 240)%Z then ((144 <=? c1) && (c1 <=? 191))%Z
+             else if (b =? 244)%Z then ((128 <=? c1) && (c1 <=? 143))%Z
+             else is_cont c1) && is_cont c2 && is_cont c3 && utf8_valid r3
+        | _ => false
+        end
+      else false
+  end.
+
+(* the kind of an escaped literal with the given text between the quotes; None = ParseError *)
+Definition string_kind (cfg : config) (body : list Z) : option Z :=
+  if fx_utf8_kind cfg then
+    match bytes_of body with
+    | None => None
+    | Some bs => Some (if utf8_valid bs then K_STR else K_BYTES)
+    end
+  else
+    match bytes_ascii body with
+    | None => None
+    | Some true => Some K_STR
+    | Some false => Some K_BYTES
+    end.
+
 (* _lex_string_literal(start_pos): `q` = input[start_pos:], which begins with the quote;
    `cur` = lexer.pos when it is called (only used for the error span) *)
 Definition lex_string (U : named -> Z -> bool) (cfg : config) (start : nat) (q : list Z) (cur : nat)
@@ -126,10 +198,9 @@ Definition lex_string (U : named -> Z -> bool) (cfg : config) (start : nat) (q :
       let body := removelast (tl text) in
       if (length text =? 2) && forallb (Z.eqb 34) text then (d, TOk K_STR start stop (stop, rest'))
       else if negb (existsb (Z.eqb 92) text) then (d, TOk K_STR start stop (stop, rest'))
-      else match bytes_ascii body with
+      else match string_kind cfg body with
            | None => (d, TErr start stop)
-           | Some true => (d, TOk K_STR start stop (stop, rest'))
-           | Some false => (d, TOk K_BYTES start stop (stop, rest'))
+           | Some k => (d, TOk k start stop (stop, rest'))
            end
   end.
 
